@@ -123,7 +123,9 @@ NONLIT = ['object', 'set', 'frozenset', 'lambda', 'instance', 'unknown_ref', 'ra
           'inf', 'nan', 'complex_real', 'ellipsis', 'bytearray', 'reprs_as_1',
           # instances of int / str / float subclasses that are == and hash-equal to a plain literal
           # (16, 'cosine', 2.5) but print as something that is no literal
-          'intenum16', 'strsub_cosine', 'floatsub_2_5']
+          'intenum16', 'strsub_cosine', 'floatsub_2_5',
+          # objects whose repr *looks like* Gin syntax without being a literal
+          'reprs_as_unknown_ref', 'reprs_as_macro']
 TWINS = {'intenum16': '16', 'strsub_cosine': "'cosine'", 'floatsub_2_5': '2.5'}
 
 
@@ -135,6 +137,18 @@ class _ReprsAsOne:
 
   def __repr__(self):
     return '1'
+
+
+class _ReprsAsRef:
+
+  def __repr__(self):
+    return '@c06_nosuch_configurable()'
+
+
+class _ReprsAsMacro:
+
+  def __repr__(self):
+    return '%c06_nosuch_macro'
 
 
 class _Prec(enum.IntEnum):
@@ -155,6 +169,7 @@ class _FloatSub(float):
 
 def nonlit_obj(kind):
   return {
+      'reprs_as_unknown_ref': _ReprsAsRef, 'reprs_as_macro': _ReprsAsMacro,
       'intenum16': lambda: _Prec.HALF, 'strsub_cosine': lambda: _StrSub('cosine'),
       'floatsub_2_5': lambda: _FloatSub(2.5),
       'object': object, 'set': lambda: {1, 2}, 'frozenset': lambda: frozenset([1]),
